@@ -267,7 +267,20 @@ def impl(case):
                 vd.grid_to_table(xr.Dataset({"w": (tuple(dims), np.arange(len(north) * len(east), dtype=float).reshape(len(north), len(east)) * -3.0)}, coords=c2))
             except Exception:  # noqa: BLE001
                 pass
+        extra_vars = {}
+        if form == "dataset" and (len(east) + len(north)) % 2 == 0:
+            # variables that are not numbers: a boolean quality flag and a time stamp per cell; they are data variables like any other and
+            # get their column (checked here; the model only knows the numeric ones)
+            base = np.asarray(vars_[0][1], dtype=float)
+            extra_vars["flag_"] = base > np.median(base)
+            extra_vars["when_"] = (np.datetime64("2001-02-03T04:05") + (np.arange(base.size).reshape(base.shape) * 37).astype("timedelta64[m]"))
+            g = g.assign({k: (tuple(dims), v) for k, v in extra_vars.items()})
         t = C.call(vd.grid_to_table, g)
+        if not C.is_err(t) and extra_vars:
+            for k, v in extra_vars.items():
+                if k not in t.columns or not np.array_equal(np.asarray(t[k].values), v.ravel()):
+                    return ["err", f"NonNumericVariableLost:{k}"]
+            t = t.drop(columns=list(extra_vars))
         return t if C.is_err(t) else _table_out(t)
     if fn == "to1d":
         E, N, extras = a
